@@ -63,7 +63,9 @@ import types as _types
 
 # side-effect-free standard-library plumbing the interpreted code may use; these are part of the interpreter, not of the
 # analysed repository
-PURE_MODULES = {"operator": _operator, "itertools": _itertools, "functools": _functools}
+import numbers as _numbers
+import decimal as _decimal
+PURE_MODULES = {"operator": _operator, "itertools": _itertools, "functools": _functools, "numbers": _numbers}
 PURE_MODULE_NAMES = {"reduce": _functools.reduce, "partial": _functools.partial, "chain": _itertools.chain,
                      "islice": _itertools.islice, "accumulate": _itertools.accumulate, "product": _itertools.product,
                      "zip_longest": _itertools.zip_longest, "starmap": _itertools.starmap, "repeat": _itertools.repeat,
@@ -71,7 +73,10 @@ PURE_MODULE_NAMES = {"reduce": _functools.reduce, "partial": _functools.partial,
                      "dropwhile": _itertools.dropwhile, "groupby": _itertools.groupby, "tee": _itertools.tee,
                      "combinations": _itertools.combinations, "permutations": _itertools.permutations,
                      "pairwise": getattr(_itertools, "pairwise", None), "itemgetter": _operator.itemgetter,
-                     "attrgetter": _operator.attrgetter, "methodcaller": _operator.methodcaller}
+                     "attrgetter": _operator.attrgetter, "methodcaller": _operator.methodcaller,
+                     # abstract numeric classes used in isinstance validations
+                     "Number": _numbers.Number, "Complex": _numbers.Complex, "Real": _numbers.Real,
+                     "Rational": _numbers.Rational, "Integral": _numbers.Integral, "Decimal": _decimal.Decimal}
 
 
 def _is_pure_callable(f):
